@@ -172,7 +172,7 @@ func (o *c13oracle) files(before, after []*DFile) []violation {
 func runC13(cfg *vh.Config) error {
 	log.SetOutput(io.Discard)
 	res := vh.NewResult("C13", cfg.Seed)
-	res.Rule = "C02's generated bundles x 1-4 random append edits (field at the end of an object / oneof / request / response / topic message or of an inline or nested type inside one, at any depth; option at the end of a declared, nested or inline enum; nested declaration at the end of a declared object / oneof; declaration - object, oneof, enum, service, topic - at the end of a file), each also handed to Coq as a term of J5sEdit.edit whose application to the original must compile to what the real compiler made of the edited text; both versions compiled by the real compiler; non-trivial = distinct (bundle, edit list) where the original compiles"
+	res.Rule = "C02's generated bundles x 1-4 random append edits (field at the end of an object / oneof / request / response / topic message or of an inline or nested type inside one, at any depth; option at the end of a declared, nested or inline enum; nested declaration at the end of a declared object / oneof; declaration - object, oneof, enum, service, topic - at the end of a file), each also handed to Coq as a term of J5sEdit.edit whose application to the original must compile to what the real compiler made of the edited text; both versions compiled by the real compiler; non-trivial = distinct (bundle, edit list) where the original compiles; entity stream: generated bundles whose package has a file with entities x 1-4 entity edits (key / data field / status / event appended to an entity, field appended to an event, declaration / new entity appended to the file, field appended to a plain declaration; 10% of the histories append a primary / shard key = the recorded class) as terms of J5sEntityEdit.eedit, expanded and compiled by the model"
 	cf := &vh.CasesFile{
 		Header: "From Coq Require Import String List NArith.\nFrom J5V.model Require Import J5sAst Desc J5sEdit J5sCorr.",
 		Type:   "c13case",
@@ -267,5 +267,11 @@ func runC13(cfg *vh.Config) error {
 		res.Cases[i].Pos = i % perShard
 	}
 	res.Shards = shards
+	// the entity-append stream (c13ent.go): its own case type and shards
+	eshards, err := entityStream(cfg, res, n)
+	if err != nil {
+		return err
+	}
+	res.Shards = append(res.Shards, eshards...)
 	return res.Write(cfg.Out)
 }
